@@ -81,7 +81,14 @@ func (checker *TimestampChecker) IsUpToDate(t *ast.Task) (bool, error) {
 		}
 	}
 
-	return !shouldUpdate, nil
+	// A missing 'generates' file makes the task out of date, like it does
+	// for the checksum method (Globs silently drops patterns without a match).
+	generatesOK, err := generatesExist(t)
+	if err != nil {
+		return false, err
+	}
+
+	return generatesOK && !shouldUpdate, nil
 }
 
 func (checker *TimestampChecker) Kind() string {
